@@ -3,6 +3,7 @@ from __future__ import annotations
 
 from . import AString
 from .. import Params, Parseable
+from ..exceptions import NotParseable
 from ..modutf7 import modutf7_encode, modutf7_decode
 
 __all__ = ['Mailbox']
@@ -33,11 +34,14 @@ class Mailbox(Parseable[str]):
     @classmethod
     def parse(cls, buf: memoryview, params: Params) \
             -> tuple[Mailbox, memoryview]:
-        atom, buf = AString.parse(buf, params)
+        atom, after = AString.parse(buf, params)
         mailbox = atom.value
         if mailbox.upper() == b'INBOX':
-            return cls('INBOX'), buf
-        return cls(modutf7_decode(mailbox)), buf
+            return cls('INBOX'), after
+        try:
+            return cls(modutf7_decode(mailbox)), after
+        except ValueError as exc:
+            raise NotParseable(buf) from exc
 
     def __bytes__(self) -> bytes:
         if self._raw is not None:
